@@ -352,6 +352,25 @@ INSTANCES.update({
                          prefix=True, prog={1: [S("root", tr=1, smp=True), S("setlp", h=101)]}), "terminal", {}),
 })
 
+# recovery after an overload episode: two forced commands parked on a full two-slot queue, then the queue
+# drains, then ordinary finishes - "the only permitted omissions are span sets submitted while the queue was
+# full", "traces started after the queue has drained are delivered completely" (seeded wave 8: send() replayed
+# one parked command per call and refused while others were still parked)
+INSTANCES.update({
+    "over_recover": (dict(seq(["root", "child", "drop", "sevent"], K=2, MaxOps=3, MaxSpans=5, MaxRoots=3, MaxTraces=2, MaxAtt=2, MaxCycles=3),
+                          prefix=True, prog={1: [S("root", tr=1, smp=True), S("root", tr=2, smp=True), S("child", ps=[101]), S("drop", h=101), S("drop", h=102)]}),
+                     "terminal", {}),
+})
+
+# laziness under the scope of a span that belongs to no trace although it is not the no-op span itself
+# (enter_with_parents over no-op parents only: an empty collect token) - seeded wave 8: such a scope
+# registered "without a token", which reads as "recording"
+INSTANCES.update({
+    "lazy_noop": (dict(seq(["lprops", "lwith", "lenter", "lexit", "levent", "childl"], MaxOps=3, MaxSpans=4, MaxRoots=1, MaxLocal=2, MaxAtt=3, MaxScopes=1, MaxCycles=0,
+                           distinct_ops=True),
+                       prefix=True, prog={1: [S("mknoop"), S("childm", ps=[101]), S("setlp", h=102)]}), "terminal", {}),
+})
+
 # adapters polled while the thread already has a (sampled) local parent, around sampled and unsampled spans
 # (seeded S36: poll skips set_local_parent for an unsampled span, so the outer parent shows through)
 INSTANCES.update({
